@@ -369,7 +369,7 @@ def random_case(draw, tier):
     elif k_ == 1:
         c = draw(G.serpentine_grid())
     else:
-        c = draw(G.random_grid(maxdim))
+        c = draw(G.random_grid(maxdim, wide=True))
     n = c["shape"][0] * c["shape"][1]
     c["outlet"] = draw(st.integers(0, n - 1))
     if "pit" in c and draw(st.integers(0, 3)) > 0:
